@@ -308,7 +308,7 @@ NextRun ==
   /\ ri' = ri + 1 /\ l' = 1
   /\ s' = Fresh(AOf(ri + 1)) /\ aux' = FreshAux
   \* only a resumed run continues on the file of the run before it
-  /\ gaux' = IF ri + 1 <= Len(G.runs) /\ G.runs[ri + 1].role = "resumed" THEN gaux
+  /\ gaux' = IF ri + 1 <= Len(G.runs) /\ G.runs[ri + 1].resumed THEN gaux
              ELSE [gaux EXCEPT !.fileIter = -1, !.lastBytes = 0]
   /\ UNCHANGED <<gi, args, unused>>
 
